@@ -63,20 +63,20 @@ func (sw *slidingWindow) cleaner() {
 		select {
 		case <-ticker.C:
 			sw.mutex.Lock()
+			now := time.Now()
 			newstartidx := 0
 			for idx, val := range sw.samples {
-				if val.expires.Before(time.Now()) {
+				if val.expires.Before(now) {
 					newstartidx = idx + 1
 				} else {
 					break
 				}
-				if len(sw.samples) > newstartidx {
-					newsamples := make([]sample, len(sw.samples)-newstartidx)
-					copy(sw.samples[newstartidx:], newsamples)
-					sw.samples = newsamples
-				} else {
-					sw.samples = make([]sample, 0)
-				}
+			}
+			if newstartidx > 0 {
+				// drop the expired prefix, keep every live sample
+				newsamples := make([]sample, len(sw.samples)-newstartidx)
+				copy(newsamples, sw.samples[newstartidx:])
+				sw.samples = newsamples
 			}
 			sw.mutex.Unlock()
 
